@@ -138,9 +138,17 @@ func main() {
 		shortest   = map[string]int{} // signature -> length of the shortest history kept
 		examples   = map[string]map[string]any{}
 		exampleKey = map[string]string{}
+
+		cfgDeadline time.Time
 	)
 
-	for _, sn := range sysNames {
+	for si, sn := range sysNames {
+		// the remaining budget is shared evenly among the bases still to run
+		if !deadline.IsZero() {
+			left := time.Until(deadline)
+			cfgDeadline = time.Now().Add(left / time.Duration(len(sysNames)-si))
+		}
+
 		probe, bad, info := newSys(sn, *tier)
 		if len(bad) > 0 {
 			fmt.Fprintf(os.Stderr, "harness error: cannot build arguments for %v (unknown parameter type): extend cmd/c09/alphabet.go\n", bad)
@@ -148,6 +156,8 @@ func main() {
 		}
 
 		// precondition: the systems can be built and base == twin
+		probe.fullCheck = true
+
 		if err := probe.Reset(); err != nil {
 			fmt.Fprintln(os.Stderr, "harness error:", err)
 			os.Exit(2)
@@ -157,7 +167,7 @@ func main() {
 		alphaInfo[sn] = info
 
 		cfg := bfs.Config{
-			System: sn, MaxDepth: d, Deadline: deadline, Workers: *workers,
+			System: sn, MaxDepth: d, Deadline: cfgDeadline, Workers: *workers,
 			Report: func(system string, hist []string, op string, v bfs.Viol) {
 				var det map[string]any
 
@@ -276,7 +286,7 @@ func main() {
 
 	// every interface method must have been executed through the RoFS itself
 	// and, for File, through a handle it returned
-	var never []string
+	never := []string{}
 
 	for _, m := range methodNames(tVFS) {
 		if !execMethods["rofs."+m] {
@@ -338,7 +348,7 @@ func main() {
 			"object_kind_methods_executed":                 execList,
 			"methods_never_executed":                       never,
 			"outcome_classes":                              outcomes,
-			"known_findings_matched":                       rep.KnownMatched(),
+			"known_findings_matched":                       append([]string{}, rep.KnownMatched()...),
 			"budget_s":                                     budget,
 		},
 		Assumptions: []string{
